@@ -3,7 +3,7 @@
 //! responses are compared with what the in-memory mirror produces for the same sequence.
 
 use crate::catalog::{self, normalise};
-use crate::engines::c05::{gen_sequence, SeqReq};
+use crate::engines::c05::{gen_long_sequence, gen_sequence, SeqReq};
 use crate::httpref::{parse_response, Framing};
 use crate::memconn::{End, Seg};
 use crate::report::{Args, Report};
@@ -176,7 +176,9 @@ pub fn run(args: &Args, rep: &mut Report) {
         if case >= args.start {
             rep.begin(case);
             let mut rng = Rng::derive(args.seed, 55, case);
-            let seq = gen_sequence(&mut rng, if paced { 4 } else { 8 }, !paced, false);
+            // every 16th connection is long-lived (100-520 requests, none asking to close): the real session loop must go on like the mirror
+            let seq = if !paced && case % 16 == 5 { rep.count("tcp_long_sequences"); let n = *rng.pick(&[101usize, 130, 260, 520]); gen_long_sequence(&mut rng, n, false) }
+                else { gen_sequence(&mut rng, if paced { 4 } else { 8 }, !paced, false) };
             check(rep, case, &router, server.port, &seq, paced);
             rep.end(case);
         }
